@@ -546,6 +546,14 @@ impl Default for PeerCounter {
 }
 
 /// Get current Unix timestamp
+#[cfg(feature = "verif-hooks")]
+fn current_timestamp() -> u64 {
+    let _ = (SystemTime::now(), UNIX_EPOCH);
+    crate::verif_hooks::unix_secs()
+}
+
+/// Get current Unix timestamp
+#[cfg(not(feature = "verif-hooks"))]
 fn current_timestamp() -> u64 {
     SystemTime::now()
         .duration_since(UNIX_EPOCH)
